@@ -46,7 +46,27 @@ func (m *C08Monitor) AfterPass(r *Runner, pv *PassView) error {
 		if dep == nil || OwnerDeleting(dep) {
 			continue
 		}
-		if specObjectIDs(r.W.Store, newest)[c.Key.Group+"/"+c.Key.Kind+"/"+c.Key.Namespace+"/"+c.Key.Name] {
+		id := c.Key.Group + "/" + c.Key.Kind + "/" + c.Key.Namespace + "/" + c.Key.Name
+		// the object was legitimately dropped if a revision newer than the deleting one went Available without it (a later
+		// revision listing it again re-creates it): then this is not the handover between an outgoing and an incoming
+		// revision that both contain the object
+		droppedInBetween := false
+		if pv.Owner != nil {
+			ownRev := setRevision(pv.Owner)
+			if ownRev == 0 {
+				ownRev = asInt(asMap(pv.Owner["spec"])["revision"]) // an ObjectSetPhase carries its set's revision in spec
+			}
+			for _, o := range sets {
+				if ownRev > 0 && setRevision(o) > ownRev && engine.Conditions(o)["Available"].Status == "True" && !specObjectIDs(r.W.Store, o)[id] {
+					droppedInBetween = true
+				}
+			}
+		}
+		if droppedInBetween {
+			r.Labels["c08-object-dropped-by-available-intermediate-revision"] = true
+			continue
+		}
+		if specObjectIDs(r.W.Store, newest)[id] {
 			circ := ""
 			if lifecycleOf(newest) == "Paused" && kubesim.AnnotationsOf(newest)["package-operator.run/paused-by-parent"] == "" {
 				// the newest revision was paused directly by the user: it reports Available from what it observes but adopts nothing
